@@ -82,7 +82,7 @@ def to_case(o):
     if k == "big":
         return "CBig %d %d %d %d %d %d" % (o["msize"], o["size"], o["avail"], KIND[o["ev"]], o["consumed"], o["maxread"])
     if k == "session":
-        reps = "[" + "; ".join("(%d, %d)" % (r["typ"], r["tag"]) for r in (o.get("replies") or [])) + "]"
+        reps = "[" + "; ".join("(%d, %d, %d)" % (r["typ"], r["tag"], r.get("errno", 0)) for r in (o.get("replies") or [])) + "]"
         return "CSession %d %s %s %s %s %s %s" % (o["msize"], blist(o["stream"]), oracle(o), reps, coq_bool(o["hang"]), coq_bool(o["returned"]), coq_bool(o["verok"]))
     if k == "vec":
         conts = "[" + "; ".join(blist(c) for c in (o.get("contents") or [])) + "]"
